@@ -94,13 +94,28 @@ Theorem C11_redelegation_chase_refuted :
 Proof. exact (conj wit38_found wit38_repaired). Qed.
 Print Assumptions C11_redelegation_chase_refuted.
 
-(* finding F15: with an exchange rate other than 1 one loya less than recorded reaches the escrow (both variants) *)
+(* finding F15: with an exchange rate other than 1 one loya less than recorded reached the escrow; repaired (as in
+   /repo now): the smallest number of shares worth the whole amount is unbonded *)
 Theorem C11_exchange_rate_refuted :
-  exists st' rec, escrow as_found [] wit15 [Org 3 0 6000000] 6 100000 = Some (st', rec) /\
-                  escrow repaired [] wit15 [Org 3 0 6000000] 6 100000 = Some (st', rec) /\
-                  s_escrow st' = 99999 /\ sum_amt rec = 100000.
-Proof. exact wit15_both. Qed.
+  (exists st' rec, escrow as_found [] wit15 [Org 3 0 6000000] 6 100000 = Some (st', rec) /\
+                   s_escrow st' = 99999 /\ sum_amt rec = 100000) /\
+  (exists st' rec, escrow repaired [] wit15 [Org 3 0 6000000] 6 100000 = Some (st', rec) /\
+                   escrow current [] wit15 [Org 3 0 6000000] 6 100000 = Some (st', rec) /\
+                   s_escrow st' = 100000 /\ sum_amt rec = 100000).
+Proof. exact (conj wit15_found wit15_repaired). Qed.
 Print Assumptions C11_exchange_rate_refuted.
+
+(* F15 repaired, for every validator whose exchange rate is at most one token per share (a validator is only ever
+   slashed, never credited) and every amount: SharesFromTokens rounded up by one smallest share step when the division
+   is not exact yields shares that Unbond values at exactly the amount (the as-found shares can be worth one unit less,
+   see the witness above) *)
+Theorem C11_exchange_rate_repaired v a s t :
+  0 < v_tokens v -> v_tokens v * P <= v_shares v -> 0 <= a ->
+  shares_from_tokens v a = Some s ->
+  tokens_from_shares v (if s * v_tokens v <? v_shares v * a then s + 1 else s) = Some t ->
+  truncate_int t = a.
+Proof. exact (shares_up_worth_amount v a s t). Qed.
+Print Assumptions C11_exchange_rate_repaired.
 
 (* ---- recorded per backer, jail, flag ------------------------------------------------------------------------ *)
 (* a slash needs the stake snapshot of (query, reporter, height); it escrows power * pct, records exactly that under the
